@@ -68,6 +68,13 @@ class SSHSOCKSForwarder(SSHLocalForwarder):
         self._host = ''
         self._port = 0
 
+    def close(self) -> None:
+        """Close this SOCKS forwarder"""
+
+        # Stop parsing the SOCKS request once the forwarder is closed
+        self._recv_handler = None
+        super().close()
+
     def _connect(self) -> None:
         """Send request to open a new tunnel connection"""
 
